@@ -64,4 +64,14 @@ var props = []PropSpec{
 		Stub:        []string{"dsim/simos wraps real files (fault layer); fallocate goes to the real fd"},
 		Assumptions: []string{"the key-set quantifier itself is covered by seeded generation only (no exhaustive small-scope enumeration)", "only reported disk faults are injected: no silently lost writes"},
 	},
+	{
+		ID: "C05", Pkg: "./bucketteer", Scenario: "C05", Level: "exploration",
+		More:     []Part{{Pkg: "./deprecated/bucketteer", Scenario: "C05L", Share: 0.3}},
+		Quick:    Tier{Runs: 1500, WallS: 90},
+		Thorough: Tier{Runs: 40000, WallS: 900},
+		Rule: "one run = one multiset of 64-byte signatures (bucket populations 0,1,2,3,2^k-1,2^k,2^k+1 over a small prefix pool that often contains the first and the last bucket, optional uniform sprinkle, duplicates, any insertion order, metadata) written by the real Writer through dsim/simos, sealed, and read back through Open (mmap) / a file / a ReaderAt showing every legal variant of the ReaderAt contract; oracle: every added signature is present in writer and file, an absent signature is present only if the model (xxhash64 computed independently) has its prefix+hash, writer and file agree; 30% of runs inject one or two reported disk faults into NewWriter/Seal/Close and require 'nil from every call => full oracle'; both the current and the legacy format; distinct = distinct (multiset digest, configuration, fault multiset)",
+		Real: []string{"bucketteer/write.go", "bucketteer/read.go", "bucketteer/bucketteer.go", "deprecated/bucketteer"},
+		Stub: []string{"dsim/simos wraps real files (fault layer); per-prefix preallocation hint lowered from 16 000 to 4 (no semantic effect)"},
+		Assumptions: []string{"multisets are sampled up to a few hundred signatures in the quick tier; the 200 000-element end of the quantifier is not reached", "only reported disk faults are injected"},
+	},
 }
